@@ -176,8 +176,10 @@ fn grammar_frame(rng: &mut StdRng) -> Vec<u8> {
             let largest = rand_varint(rng);
             vi(&mut b, largest, rng, false);
             vi(&mut b, rand_varint(rng), rng, false);
+            // the count that is WRITTEN may be anything (2^62-1 included); the ranges that follow stay few
             let count = rng.random_range(0..4u64);
-            vi(&mut b, count, rng, false);
+            let written = if rng.random_bool(0.12) { rand_varint(rng) } else { count };
+            vi(&mut b, written, rng, false);
             let mut cur = largest;
             let first = if rng.random_bool(0.8) { rng.random_range(0..=cur.min(20)) } else { rand_varint(rng) };
             vi(&mut b, first, rng, false);
@@ -283,6 +285,27 @@ pub fn record(args: &[String]) -> Value {
         let c = frame_case(&input);
         if c["ok"] == json!(true) { ok += 1 } else { bad += 1 }
         out.emit(c);
+        // Stream::try_fit on a value that is fitted twice (a writer retrying with another capacity), then encoded with a PING
+        // behind it: if the frame does not fill the capacity it must carry its length, or the PING is swallowed as data
+        if k % 7 == 0 {
+            let len = [0usize, 1, 30, 100][rng.random_range(0..4)];
+            let data: Vec<u8> = (0..len).map(|i| i as u8).collect();
+            let (c1, c2) = ([10usize, 20, 50, 1200][rng.random_range(0..4)], [60usize, 200, 1200][rng.random_range(0..3)]);
+            let mut f = frame::Stream { stream_id: VarInt::from_u8(4), offset: VarInt::from_u8(rng.random_range(0..2)), is_last_frame: false, is_fin: false, data: &data[..] };
+            let _ = f.try_fit(c1);
+            if let Ok(n) = f.try_fit(c2) {
+                let f2 = frame::Stream { stream_id: f.stream_id, offset: f.offset, is_last_frame: f.is_last_frame, is_fin: false, data: &data[..n] };
+                let mut buf = vec![0u8; c2 + 8];
+                let mut e = EncoderBuffer::new(&mut buf);
+                e.encode(&f2);
+                let used = e.len();
+                let room = used < c2;
+                if room { e.encode(&frame::Ping); }
+                let total = e.len();
+                buf.truncate(total);
+                out.emit(json!({"ev": "fitseq", "b": buf, "room": room, "data": n}));
+            }
+        }
         // variable-length integers on their own
         if k % 5 == 0 {
             let v = rand_varint(&mut rng);
